@@ -14,10 +14,17 @@ import json, os, re, subprocess, sys, random, time, glob, hashlib
 
 def sh(cmd, cwd=None, env=None, timeout=3600):
     e = dict(os.environ); e.update(env or {}); e['CARGO_NET_OFFLINE'] = 'true'
+    # own process group, so that a timeout also ends the test binaries cargo started (a hung one would keep its TCP port)
+    p = subprocess.Popen(cmd, shell=True, cwd=cwd, env=e, stdout=subprocess.PIPE, stderr=subprocess.STDOUT, text=True, start_new_session=True)
     try:
-        p = subprocess.run(cmd, shell=True, cwd=cwd, env=e, capture_output=True, text=True, timeout=timeout)
-        return p.returncode, p.stdout + p.stderr
+        out, _ = p.communicate(timeout=timeout)
+        return p.returncode, out
     except subprocess.TimeoutExpired:
+        try:
+            os.killpg(p.pid, 9)
+        except ProcessLookupError:
+            pass
+        p.wait()
         return 124, 'timeout'
 
 REL = [(' <= ', ' < '), (' < ', ' <= '), (' >= ', ' > '), (' > ', ' >= '), (' == ', ' != '), (' != ', ' == ')]
